@@ -21,6 +21,7 @@ RULE = (
     "monotonicity is re-checked on the recorded table. Variant cells repeat the gate with other message texts ('', newline, "
     "two lines) and inside an indentation scope: a closed gate lets nothing through, an open gate exactly what the un-gated "
     "call writes. Pair cells keep two I/O objects and a section alive with different verbosity / quiet settings and write the "
+    "Also: section I/Os of every I/O kind (the null and the console I/O too; the console I/O writes through the library's file-stream wrapper). "
     "same flag word to each in turn: every output is gated by its own settings. Histories: random sequences (3-14 steps) of set_verbosity / set_quiet on any object and writes (unique id per message, random flag word) through an I/O object, its standard and error outputs (gated separately), 1-3 live sections of the standard output, a section of the error output and a section I/O: an id arrives in its own stream at the time of the call iff that output's gate is open, never in the other stream, and a suppressed id never appears later (sections re-print recorded content when a sibling changes). non-trivial = cell with flags not in "
     "(None,0) or quiet; distinct by cell."
 )
